@@ -23,6 +23,7 @@ type FuncResult struct {
 	Trusted     []string // trusted contracts applied at call sites
 	Used        []string
 	Havoc       []string // callees without contract (result and mod-set havoced)
+	Inlined     []string // callees executed in place (their own safety obligations assumed here)
 	Dropped     []string // inferred invariant candidates that did not hold
 	Inferred    []string
 	Rounds      int
@@ -118,7 +119,7 @@ func (s *Sess) scriptPrefix(upto int, forBlk int) string {
 			sb.WriteByte('\n')
 		case 'o':
 			// earlier obligations are assumed (they are reported separately if they fail)
-			if c.ob.Houdini != nil && !c.ob.Houdini.alive || c.ob.MustFail {
+			if c.ob.Houdini != nil && !c.ob.Houdini.alive || c.ob.MustFail || c.ob.NoAssume {
 				continue
 			}
 			fmt.Fprintf(&sb, "(assert %s)\n", c.ob.Formula)
@@ -143,7 +144,9 @@ func (s *Sess) incrementalScript(timeoutMs int) string {
 			sb.WriteString(c.text)
 			sb.WriteByte('\n')
 		case 'o':
-			if c.ob.MustFail {
+			if c.ob.NoAssume {
+				fmt.Fprintf(&sb, "(push 1)\n(assert (not %s))\n(check-sat)\n(pop 1)\n", c.ob.Formula)
+			} else if c.ob.MustFail {
 				fmt.Fprintf(&sb, "(set-option :timeout 1500)\n(push 1)\n(assert (not %s))\n(check-sat)\n(pop 1)\n", c.ob.Formula)
 			} else {
 				fmt.Fprintf(&sb, "(push 1)\n(assert (not %s))\n(check-sat)\n(pop 1)\n(assert %s)\n", c.ob.Formula, c.ob.Formula)
@@ -459,6 +462,7 @@ func (e *Engine) VerifyFuncOpts(fn *ssa.Function, cfg SolverCfg, nilcheck bool, 
 		res.Trusted = sortedKeys(s.trustedUsed)
 		res.Used = sortedKeys(s.funcsUsed)
 		res.Havoc = sortedKeys(s.havocCalls)
+		res.Inlined = sortedKeys(s.inlined)
 		break
 	}
 	res.WallS = time.Since(t0).Seconds()
